@@ -409,7 +409,10 @@ def timedelta_deserializer(value):
     kwargs = {key: float(val) for key, val in match.groupdict().items()}
     from datetime import timedelta
 
-    return timedelta(**kwargs)
+    try:
+        return timedelta(**kwargs)
+    except OverflowError:
+        raise_error()
 
 
 register_type_on_first_use("datetime.timedelta", deserializer=timedelta_deserializer)
